@@ -143,6 +143,17 @@ pub fn frac_patterns(full: bool) -> Vec<u64> {
             }
         }
     }
+    if full {
+        // every 3-bit pattern
+        let pos: Vec<u32> = (0..52).collect();
+        for a in 0..pos.len() {
+            for b in (a + 1)..pos.len() {
+                for c in (b + 1)..pos.len() {
+                    v.push((1u64 << pos[a]) | (1u64 << pos[b]) | (1u64 << pos[c]));
+                }
+            }
+        }
+    }
     v.sort_unstable();
     v.dedup();
     v
@@ -365,9 +376,9 @@ impl Driver for C15 {
     fn describe(&self, tier: Tier) -> Describe {
         Describe {
             rule: format!(
-                "doubles: every binary exponent -256..=251 (16^-64 <= |x| < 16^63) x both signs x {} fraction patterns (0..3, all-ones-0..3 i.e. everything within 3 ulp of every power of two and sixteen, all 1-bit{} 2-bit patterns, alternating, pi, e) plus +-0; 8-byte reals: exponent byte 0..127 x sign x {} normalised mantissas (first nibble 1..15 with zeros / ones / 1-bit / 2-bit tails, and every low-bit pattern under seven 53-bit prefixes = all rounding cases: below half, tie to even both ways, above half); every edge value also through UNITS/MAG/ANGLE records with write+from_bytes. A state is one value; non-trivial = mantissa/fraction not zero. Oracle: exact integer arithmetic (unique normalised encoding; round-to-nearest-even decode).",
+                "doubles: every binary exponent -256..=251 (16^-64 <= |x| < 16^63) x both signs x {} fraction patterns (0..3, all-ones-0..3 i.e. everything within 3 ulp of every power of two and sixteen, all 1-bit{} patterns, alternating, pi, e) plus +-0; 8-byte reals: exponent byte 0..127 x sign x {} normalised mantissas (first nibble 1..15 with zeros / ones / 1-bit / 2-bit tails, and every low-bit pattern under seven 53-bit prefixes = all rounding cases: below half, tie to even both ways, above half); every edge value also through UNITS/MAG/ANGLE records with write+from_bytes. A state is one value; non-trivial = mantissa/fraction not zero. Oracle: exact integer arithmetic (unique normalised encoding; round-to-nearest-even decode).",
                 frac_patterns(tier.is_thorough()).len(),
-                if tier.is_thorough() { ", all" } else { ", edge" },
+                if tier.is_thorough() { ", all 2-bit and all 3-bit" } else { ", edge 2-bit" },
                 real_mantissas(tier.is_thorough()).len()
             ),
             assumptions: vec!["+0.0 and -0.0 compare equal (the format has one zero)".into()],
@@ -384,6 +395,11 @@ impl Driver for C15 {
             v.push(format!("R:{ex}"));
         }
         v.push("z".into());
+        if _tier.is_thorough() {
+            for i in 0..64 {
+                v.push(format!("X:{i}"));
+            }
+        }
         v
     }
     fn run_unit(&self, unit: &str, cx: &mut Cx) {
@@ -405,6 +421,34 @@ impl Driver for C15 {
                 cx.state(hash_bytes(&z.to_bits().to_le_bytes()), false);
             }
             cx.tag("zero");
+            return;
+        }
+        if let Some(xs) = unit.strip_prefix("X:") {
+            // labelled sampling supplement (never the deciding step): VERIF_SEED-driven uniform bit patterns
+            let shard: u64 = xs.parse().unwrap();
+            cx.enter(unit);
+            let mut st = cx.seed ^ shard.wrapping_mul(0x9E3779B97F4A7C15) ^ 0xC15;
+            let mut next = || {
+                st = st.wrapping_add(0x9E3779B97F4A7C15);
+                let mut z = st;
+                z = (z ^ (z >> 30)).wrapping_mul(0xBF58476D1CE4E5B9);
+                z = (z ^ (z >> 27)).wrapping_mul(0x94D049BB133111EB);
+                z ^ (z >> 31)
+            };
+            for _ in 0..20000 {
+                let r = next();
+                let e = E_MIN + (r % ((E_MAX - E_MIN + 1) as u64)) as i64;
+                let bits = (next() & 0x800F_FFFF_FFFF_FFFF) | (((e + 1023) as u64) << 52);
+                cx.stats.supplement_evaluations += 1;
+                self.check_double(bits, cx);
+                let m = next() & 0x00FF_FFFF_FFFF_FFFF;
+                if m >> 52 != 0 {
+                    let rr = (next() & 0xFF00_0000_0000_0000) | m;
+                    cx.stats.supplement_evaluations += 1;
+                    self.check_real(rr, cx);
+                }
+            }
+            cx.tag("supplement");
             return;
         }
         if let Some(es) = unit.strip_prefix("D:") {
